@@ -11,6 +11,7 @@ checks = sys.argv[4:]
 env = dict(os.environ, GOFLAGS="-mod=mod", GOPROXY="off")
 env.pop("GOSUMDB", None)
 src = os.path.join(wt, "seed", x)
+x = os.environ.get("SEED_AS", x)  # store under another letter (later rounds: C, D, ...)
 patch = os.path.join(src, "patch.diff")
 demos = [f for f in glob.glob(os.path.join(src, "*_test.go"))]
 def sh(cmd, cwd, timeout=1800):
